@@ -379,7 +379,8 @@ def run_property(prop, tier, seed, only=None, workers=None):
             continue
         sub = _find_sub(mod, reg.sub)
         r = run_check(sub, reg.case)
-        total.evaluations += 1
+        if r[0] != "ok":
+            total.evaluations += 1
         total.labels["regression-case"] += 1
         if r[0] == "harness":
             harness = "regression %s: %s" % (reg.name, r[1])
